@@ -128,8 +128,8 @@ PROPS = {
                                      "a decode-loop iteration that neither consumes input nor grows the output is reported by the H1 hook and aborted"]),
     'C11': dict(
         rule=("one child process per scenario (shape x depth x API): shapes '- ' per level, '-' / 'k:' / alternating per line with growing indentation, '? ', '[', "
-              "'{a: ', '{\"a\":', block-then-flow; depths 10..10^4 (quick) / 10^5 (thorough), capped at 3000 for the shapes whose text grows quadratically; APIs iterate, "
-              "push, load (Yaml / YamlOwned / MarkedYaml) + drop, clone, ==, hash, emit, and load on a thread with an 8 MiB stack; the observer is the child's exit "
+              "'{a: ', '{\"a\":', block-then-flow, anchored '- ' nest; depths 10..10^4 (quick; pull and push to 10^5) / 10^5 (thorough), capped at 3000 for the shapes whose text grows quadratically; APIs iterate, "
+              "push (both also on a 1 MiB-stack thread), load (Yaml / YamlOwned / MarkedYaml) + drop, clone, ==, hash, emit, and load on a thread with an 8 MiB stack; every depth 1..280 (700 thorough) with six innermost nodes and four emitter settings under catch_unwind; the observer is the child's exit "
               "status plus breadcrumbs, and a stack probe inside the receiver / writer callbacks; non-trivial = depth >= 100; distinct = distinct (shape, depth, API)"),
         builds=[('rel', 1.0, 1.0), ('chk', 1.0, 1.0)], must_observe=['scenarios', 'stack_probes', 'scenarios_succeeding', 'scenarios_ending_in_error_value'],
         timeout={'quick': 1500, 'thorough': 5400},
@@ -137,24 +137,24 @@ PROPS = {
 }
 
 TECH = {
-    'C01': ('panic capture, counting-input work bound, H2 scanner-progress hook, contract-checking inputs, chk (overflow/debug-assert) build, process-exit observer', '3 C01'),
+    'C01': ('panic capture, counting-input work bound, node-count bound on the loaded tree (alias amplification inputs), H2 scanner-progress hook, contract-checking inputs, chk (overflow/debug-assert) build, process-exit observer', '3 C01'),
     'C02': ('online pushdown trace checker of the event grammar + anchor table, pull and push', '3 C02'),
     'C03': ('reference-model oracle: spec-derived renderer of random abstract trees, differential against delivered events; yaml-test-suite variants', '3 C03'),
     'C04': ('presentation generated from the target string (value known by construction), independent fold/unescape inverse as oracle self-test', '3 C04'),
     'C05': ('reference function block_value() from YAML 1.2.2 8.1 vs delivered block scalar value', '3 C05'),
-    'C06': ('fault injection into well-formed streams by 14 spec-derived damage operators; oracle: an Err must be observed', '3 C06'),
+    'C06': ('fault injection into well-formed streams by 14 spec-derived damage operators (with scalar-continuation and tab-after-blanks variants); oracle: an Err must be observed', '3 C06'),
     'C07': ('tee receiver logging the events given to the real loader + independent fold of the log; H4 loader-stack hook', '3 C07'),
-    'C08': ('exhaustive small-scope enumeration against hand-written recognisers of the core schema regular expressions', '3 C08'),
+    'C08': ('exhaustive small-scope enumeration against hand-written recognisers of the core schema regular expressions; the same text in documents of five styles, eager and deferred, four node types; core tags in other handle/suffix splits', '3 C08'),
     'C09': ('round-trip monitor: dump -> load -> compare -> dump again over generated value trees, exhaustive strings up to length L', '3 C09'),
     'C10': ('differential monitor over 8 input back-ends incl. contract-checking inputs at other buffer capacities', '3 C10'),
-    'C11': ('child-process exit-status observer per nesting scenario + stack-depth probe inside library callbacks', '3 C11'),
+    'C11': ('child-process exit-status observer per nesting scenario (8 MiB and 1 MiB stacks) + stack-depth probe inside library callbacks + low-depth sweep under catch_unwind', '3 C11'),
     'C12': ('independent recount of line/column from the input, span nesting and scalar-text rules, tee-logged spans vs marked nodes', '3 C12'),
     'C13': ('generated JSON value is the oracle; serialisers with random insignificant whitespace', '3 C13'),
     'C14': ('metamorphic differential: LF vs CRLF vs CR variants of the same input', '3 C14'),
     'C15': ('metamorphic differential: documents of A and B alone vs A ... B joined; H3 scanner-state hook at document markers', '3 C15'),
     'C16': ('reference model of tag resolution (the property sentence executed literally) over generated directive sets, with injected faults', '3 C16'),
-    'C17': ('call-history checker: exhaustive / random peek-next histories against plain iteration; push vs pull differential', '3 C17'),
-    'C18': ('H1 decode-loop progress hook (aborts a spin), differential decode-vs-direct-load over 6 encodings, trap-behaviour oracle', '3 C18'),
+    'C17': ('call-history checker: exhaustive / random peek-next histories against plain iteration (continuing past a peeked error); push vs pull differential incl. the span-less receiver; mixed next/peek/load histories and what follows the end of the stream', '3 C17'),
+    'C18': ('H1 decode-loop progress hook (aborts a spin), differential decode-vs-direct-load over 6 encodings, trap-behaviour oracle incl. the configured outcome (dropped / U+FFFD / callback output) for damaged UTF-8', '3 C18'),
     'C19': ('differential over 4 node types and deferred-vs-eager resolution through canonical trees', '3 C19'),
     'C20': ('differential of 6 lookup paths against a linear-scan reference; Eq => Hash monitor', '3 C20'),
 }
